@@ -89,4 +89,19 @@ PROPS = {
             "names pairwise distinct, so AddSequence never renames (C01)",
         ],
     },
+    "C15": {
+        "harness": [{"cmd": "c15", "n": {"quick": 1500, "thorough": 40000}}],
+        "rule": "every (start,length) in [-1,7]^2 x both protection flags on one 3x5 alignment, plus random 1-5 row x "
+                "0-10 column alignments built from a consensus with per-row mutations (rare residues and majority ties "
+                "occur) x Mask (windows biased to the borders and overhanging, all replacement modes incl. invalid, "
+                "nogap/noref, every reference row / none / unknown) / MaskOccurences (thresholds -1..n+1) / MaskUnique, "
+                "three alphabets; non-trivial = >= 2 rows and >= 2 columns; distinct = distinct (op, arguments, input)",
+        "nontrivial": lambda m: len(m.get("seqs", [])) >= 2 and len(m["seqs"][0]) >= 2,
+        "assumptions": [
+            "ASCII residues (the code's occurrence tables have 130 entries)",
+            "spec oracle does not judge reference protection without a reference row (the code then protects '.')",
+            "MAJ with a reference row in MaskOccurences means the most frequent residue among the counted rows "
+            "(pinned by the repository's own Test_align_MaskUniqueMAJ)",
+        ],
+    },
 }
